@@ -298,6 +298,10 @@ def run_core(ctx, opts=("d",), force=False):
                     seq = inputs if hv % 2 == 0 else list(reversed(inputs))
                     if hv >= 2:      # repeated identical inputs, back to back
                         seq = [x for i_ in seq for x in (i_, i_)]
+                    # C12 speaks of inputs that fit U (runes and the end symbol): longer pinned inputs stay out of the narrow histories
+                    lim = {"uint8": 255, "uint16": 65535}.get(width)
+                    if lim:
+                        seq = [x for x in seq if len(B.runes_of(x)) < lim]
                     ireqs.append((cid, key, -1, True, size, width, seq))
                     mlines.append("run %s/%s %s 1 1 0 0 %d %s" % (gid, o, cid, FUEL, ";".join(",".join(map(str, B.runes_of(i))) for i in seq)))
                     meta[cid] = dict(g=gid, o=o, kind="history", memo=True, inputs=seq, entry=0, size=size, width=width)
